@@ -114,7 +114,7 @@ struct Triple {
 }
 
 /// h such that c - s2*h = s1 (mod q), for invertible s2
-fn solve_h(c: &[i64], s1: &[i64], s2: &[i64]) -> Option<Vec<i64>> {
+pub(crate) fn solve_h(c: &[i64], s1: &[i64], s2: &[i64]) -> Option<Vec<i64>> {
     let n = c.len();
     let s2inv = if s2.iter().filter(|&&x| x != 0).count() == 1 {
         // monomial a X^i: inverse is -a^-1 X^(n-i) (or a^-1 for i = 0)
@@ -135,7 +135,7 @@ fn solve_h(c: &[i64], s1: &[i64], s2: &[i64]) -> Option<Vec<i64>> {
     Some(poly::mul_q(&s2inv, &diff))
 }
 
-fn encode_sig(n: usize, salt: &[u8], body: &[u8]) -> Vec<u8> {
+pub(crate) fn encode_sig(n: usize, salt: &[u8], body: &[u8]) -> Vec<u8> {
     let mut s = vec![0x50 | keycodec::logn(n)];
     s.extend_from_slice(salt);
     s.extend_from_slice(body);
@@ -148,7 +148,7 @@ fn body_of(n: usize, s2: &[i64]) -> Option<Vec<u8>> {
 
 /// s1 supported on coordinates disjoint from nothing in particular: spread the given entries with
 /// alternating signs over positions starting at `at`
-fn sparse(n: usize, entries: &[i64], at: usize) -> Vec<i64> {
+pub(crate) fn sparse(n: usize, entries: &[i64], at: usize) -> Vec<i64> {
     let mut v = vec![0i64; n];
     for (k, &e) in entries.iter().enumerate() {
         let pos = (at + 3 * k) % n;
